@@ -166,8 +166,19 @@ def apply_cfg(text, rewrites, where, cfg=None):
         k = attr_end
         while k < len(text) and text[k].isspace():
             k += 1
+        mkw = re.match(r'(if|match|while|for|loop|unsafe)\b', text[k:])
         if text[k] == '{':
             stmt_end = match_close(text, k)
+        elif mkw:
+            # a block-like statement (no trailing `;`): it ends with its block, plus `else` chains
+            bo_ = body_open(text, k, stop_at_semicolon=False)
+            stmt_end = match_close(text, bo_)
+            while True:
+                me = re.match(r'\s*else\b', text[stmt_end:])
+                if not me:
+                    break
+                bo_ = body_open(text, stmt_end + me.end(), stop_at_semicolon=False)
+                stmt_end = match_close(text, bo_)
         else:
             depth = 0
             stmt_end = None
@@ -365,7 +376,7 @@ def parse_sidecar(path):
                 cur = None
             elif w[0] == 'fragment':
                 # //@ fragment <path> fn <name> [in `impl`] block-after|head-until `anchor` as <newname>
-                m = re.match(r'fragment\s+(\S+)\s+fn\s+(\S+)(?:\s+in\s+`([^`]*)`)?\s+(block-after|head-until)\s+' + _BT + r'(?:\s+until\s+' + _BT + r')?\s+as\s+(\S+)\s*$', d)
+                m = re.match(r'fragment\s+(\S+)\s+fn\s+(\S+)(?:\s+in\s+`([^`]*)`)?\s+(block-after|head-until|stmt-at)\s+' + _BT + r'(?:\s+until\s+' + _BT + r')?\s+as\s+(\S+)\s*$', d)
                 if not m:
                     raise SpecError('%s:%d: bad fragment' % (path, ln))
                 item = Item(m.group(1), 'fn', m.group(2), m.group(3), m.group(7), ln)
@@ -572,6 +583,19 @@ def build(repo, sidecar_path, extra_spec=None):
                     u0, _u1 = _nth(inner, until, 1, where)
                     inner = inner[:u0]
                 f0 = ob
+            elif mode == 'stmt-at':
+                # one block-like statement (if / match / for / while / loop), from its keyword at the
+                # anchor to the end of its block including `else` chains
+                bo_ = body_open(raw, a0, stop_at_semicolon=False)
+                se = match_close(raw, bo_)
+                while True:
+                    me = re.match(r'\s*else\b', raw[se:])
+                    if not me:
+                        break
+                    bo_ = body_open(raw, se + me.end(), stop_at_semicolon=False)
+                    se = match_close(raw, bo_)
+                inner = '\n' + raw[a0:se] + '\n'
+                f0 = a0
             else:
                 inner = raw[fbo + 1:a0]
                 f0 = fbo
@@ -580,7 +604,7 @@ def build(repo, sidecar_path, extra_spec=None):
             header = '\n'.join(l for l, _ in item.header).rstrip()
             tail = '\n'.join(l for l, _ in item.tail)
             g.rewrites.append({'tag': 'Rfrag', 'where': where,
-                               'before': 'fn %s: everything outside the %s `%s`%s' % (item.name, 'block opened by' if mode == 'block-after' else 'statements before', anchor, (' and, inside it, everything from `%s` on' % until) if until else ''),
+                               'before': 'fn %s: everything outside the %s `%s`%s' % (item.name, {'block-after': 'block opened by', 'stmt-at': 'statement starting at'}.get(mode, 'statements before'), anchor, (' and, inside it, everything from `%s` on' % until) if until else ''),
                                'after': 'dropped; the fragment is wrapped in the synthetic signature `%s`%s' % (' '.join(header.split()), (' and followed by `%s`' % tail.strip()) if tail.strip() else '')})
             prefix = '\n'.join(l for l, _ in item.prefix)
             if prefix.strip():
